@@ -26,7 +26,7 @@ RULE = ("G1 (Hypothesis grammar): abstract trees (depth <= 3, fan-out <= 3; know
         "character outside [A-Za-z0-9 -] or whose kind is not text; distinct by hash of the input.")
 ASSUMPTIONS = ["generated TEXT contains no raw CR (C05/C07 cover it)", "RESOURCES is a single TEXT in this library",
                "VTIMEZONE components of generated trees carry no TZID (well-formed definitions are C12's domain)"]
-REQUIRED_CLASSES = ["gen:tree", "gen:fixture", "accepted", "has-backslash", "multiple", "lf-only", "extra-folds", "unknown-component", "non-text-kind"]
+REQUIRED_CLASSES = ["history:zone-ids-looked-up-before", "gen:tree", "gen:fixture", "accepted", "has-backslash", "multiple", "lf-only", "extra-folds", "unknown-component", "non-text-kind"]
 
 _FIX = None
 
@@ -98,6 +98,14 @@ def judge(case):
     text = input_text(case)
     multiple = bool(case.get("multiple"))
     fails = []
+    if case.get("pre_lookup"):
+        # history: every zone id the text uses was met before in this provider session, in an invitation that does not define
+        # it (a failed lookup leaves nothing behind)
+        for tzid in sorted(set(re.findall(r"(?i)TZID=\"?([^\":;,\r\n]+)", text)))[:6]:
+            try:
+                Calendar.from_ical(f"BEGIN:VCALENDAR\r\nBEGIN:VEVENT\r\nDTSTART;TZID=\"{tzid}\":20200101T000000\r\nEND:VEVENT\r\nEND:VCALENDAR\r\n")
+            except Exception:  # noqa: BLE001 - only what follows is judged
+                pass
     try:
         t1 = parse(text, multiple, case.get("as_bytes", True))
     except ValueError:
@@ -265,6 +273,8 @@ _PLAIN = re.compile(r"^[A-Za-z0-9 -]*$")
 def info(case):
     classes = ["gen:" + case["gen"]]
     text = input_text(case)
+    if case.get("pre_lookup") and re.search(r"(?i)TZID=", text):
+        classes.append("history:zone-ids-looked-up-before")
     nt = False
     if case["gen"] == "tree":
         for tree in case["trees"]:
@@ -446,7 +456,7 @@ def tree_cases(draw):
     return {"gen": "tree", "provider": draw(st.sampled_from(["zoneinfo", "pytz"])), "trees": trees, "multiple": n > 1 or draw(st.booleans()),
             "folds": draw(st.one_of(st.none(), st.lists(st.integers(0, 40), min_size=1, max_size=5))),
             "fold_ws": draw(st.sampled_from([" ", "\t", " \t"])), "eol": draw(st.sampled_from(["\r\n", "\r\n", "\n"])),
-            "as_bytes": draw(st.booleans())}
+            "as_bytes": draw(st.booleans()), "pre_lookup": draw(st.sampled_from([False, False, True]))}
 
 
 TOKENS = [":", ";", ",", "=", '"', "\\", "\\n", "\\,", "BEGIN:VEVENT", "END:VEVENT", "TZID=Europe/Berlin", "VALUE=DATE", "Z", "/", "P1D", "20200101",
@@ -459,7 +469,7 @@ def fixture_cases(draw):
     muts = draw(st.lists(st.tuples(st.sampled_from(["del", "dup", "swap", "splice", "splice", "lower", "replace-line"]), st.integers(0, 400),
                                    st.integers(0, 400), st.sampled_from(TOKENS)).map(list), min_size=0, max_size=4))
     return {"gen": "fixture", "provider": draw(st.sampled_from(["zoneinfo", "pytz"])), "fixture": draw(st.sampled_from(names)), "muts": muts,
-            "multiple": draw(st.booleans()), "as_bytes": True}
+            "multiple": draw(st.booleans()), "as_bytes": True, "pre_lookup": draw(st.sampled_from([False, False, True]))}
 
 
 def _plain_fixtures():
